@@ -8,6 +8,12 @@ package main
 // model (clock before/after, the math/rand draws Stampfile consumed — the generator is seeded per
 // case and replayed), the returned summary, the state after, and the two read-backs.
 //
+// The clock the code under test reads (types.NowTS) can be moved by op 4 (hook types.VerifSetClockOffset, whole
+// seconds): one driver process publishes before and after a local midnight / UTC midnight / month end / new year /
+// leap day, a day or a year later at the same time of day, and after the clock was stepped back. t0 / t1 are read
+// from types.NowTS, i.e. from that clock. Op 5 asks types.Time4.Cdatemd (the date fhdrStamp records) for a list of
+// explicit times, in the given order, inside this one process.
+//
 // result line: status | t0 t1 r0..r7 err | state | summary | state | fetch | list     (numbers only)
 //   state   = nusers numposts.. nboards (total blob(dir) nfiles (blob(name) blob(content))*)* bbusystate (busystateb lastposttime)*
 //             (the last group: shared memory SetBTotal has no business with — Shm.BBusyState, and per scenario board
@@ -139,7 +145,7 @@ func c09SetEnv(e *bbsEnv, args [][]string) {
 	if len(args) != 2+len(c09Boards) || len(args[1]) != 2 {
 		panic("badcase:env")
 	}
-	now := time.Now().Unix()
+	now := int64(types.NowTS())
 	for i, b := range c09Boards {
 		g := args[2+i]
 		if len(g) != 6 {
@@ -268,12 +274,44 @@ func init() {
 					}
 				}
 				cache.Shm.Shm.BBusyState = 0
+				types.VerifSetClockOffset(0)
 				must(copyFile(filepath.Join(env.repo, "ptt", "testcase", ".PASSWDS1"), filepath.Join(env.home, ".PASSWDS")))
 				os.Remove(filepath.Join(env.home, ".post"))
 				return ok()
 			case 3: // shared memory around the post path: see c09SetEnv
 				c09SetEnv(env, args)
 				return ok(c09State(env)...)
+			case 4: // 4 | mode v : the clock types.NowTS reads. 0 = the real clock, 1 / 3 = it reads v now, 2 = moved by v seconds
+				if len(args) != 2 || len(args[1]) != 2 {
+					panic("badcase:clock")
+				}
+				switch ai(args[1][0]) {
+				case 0:
+					types.VerifSetClockOffset(0)
+				case 1:
+					types.VerifSetClockOffset(ai(args[1][1]) - time.Now().Unix())
+				case 3: // as 1, set in the first half of a second (a post with edge_us then starts just before v+1)
+					if ns := time.Now().Nanosecond(); ns > 500_000_000 {
+						time.Sleep(time.Duration(1_000_000_000-ns+2_000_000) * time.Nanosecond)
+					}
+					types.VerifSetClockOffset(ai(args[1][1]) - time.Now().Unix())
+				case 2:
+					types.VerifSetClockOffset(types.VerifClockOffset() + ai(args[1][1]))
+				default:
+					panic("badcase:clock")
+				}
+				return ok(oi(int64(types.NowTS())))
+			case 5: // 5 | t.. : the 6-byte date field fhdrStamp would record for each time, asked in this order in this process
+				if len(args) != 2 {
+					panic("badcase:dates")
+				}
+				out := []string{}
+				for _, t := range args[1] {
+					var d ptttype.Date_t
+					copy(d[:], []byte(types.Time4(ai(t)).Cdatemd()))
+					out = append(out, ob(d[:])...)
+				}
+				return ok(out...)
 			case 1: // 1 | ui bi seed [edge_us] | class | title | lines | ip
 				u := c09Users[ai(args[1][0])]
 				b := c09Boards[ai(args[1][1])]
@@ -301,7 +339,7 @@ func init() {
 				}
 				rand.Seed(seed)
 				bboardID := bbs.BBoardID(oi(int64(b.bid)) + "_" + b.name)
-				t0 := time.Now().Unix()
+				t0 := int64(types.NowTS())
 				var summary *bbs.ArticleSummary
 				var err error
 				crashed := false
@@ -316,7 +354,7 @@ func init() {
 					}()
 					summary, err = bbs.CreateArticle(bbs.UUserID(u.name), bboardID, class, title, lines, ip)
 				}()
-				t1 := time.Now().Unix()
+				t1 := int64(types.NowTS())
 				rand.Seed(seed)
 				status := "0"
 				if crashed {
